@@ -1,8 +1,8 @@
 SPECIFICATION Spec
 CONSTANTS
   Depth = 2
-  MaxStmts = 3
-  Contexts = {1, 2, 4, 5, 7}
+  MaxStmts = 2
+  Contexts = {1, 2, 4}
   Export = TRUE
 INVARIANT Inv
 CHECK_DEADLOCK FALSE
